@@ -26,7 +26,7 @@ type c07F struct {
 	K         int
 }
 
-var c07fPos = []string{"ret", "var", "assign", "param", "hostarg", "field", "elem", "mapelem", "conv"}
+var c07fPos = []string{"ret", "ret2", "var", "assign", "param", "hostarg", "field", "elem", "mapelem", "conv"}
 var c07fKind = []string{"named", "lit", "closure", "methodval", "param", "hostfunc", "callres", "convnamed"}
 
 func (f *c07F) key() string { return f.Pos + "|" + f.Kind }
@@ -46,6 +46,10 @@ func (f *c07F) source() string {
 	case "ret":
 		fmt.Fprintf(&b, "func mk(p func(int) int) host.Op {\n%s\treturn %s\n}\n", pre, x)
 		body = "\to := mk(named)\n"
+	case "ret2":
+		// second of two results
+		fmt.Fprintf(&b, "func mk2(p func(int) int) (int, host.Op) {\n%s\treturn 1, %s\n}\n", pre, x)
+		body = "\t_, o := mk2(named)\n"
 	case "var":
 		body = pre + "\tvar o host.Op = " + x + "\n"
 	case "assign":
